@@ -78,6 +78,12 @@
 (* versions and the final one are observed afterwards, then each of them   *)
 (* is updated once more ("forks") and everything is observed again.        *)
 (*                                                                         *)
+(* Third family ("sweep"): the property quantifies over ALL operations.    *)
+(* Whatever a builtin does with an immutable value (return anything, fail) *)
+(* every holder of the value observes afterwards what it observed before:  *)
+(* the check instantiates the placeholder $p of the call patterns with     *)
+(* every builtin the engine registers.                                     *)
+(*                                                                         *)
 (* ENUMERATION.  All histories of DEPTH actions after the first base, the  *)
 (* holder kind of the first action drawn from KINDS1, of the later ones    *)
 (* from KINDSR; KEEP1 / KEEP2 / KEEPR (per mille, 1000 = all) thin the     *)
@@ -91,6 +97,12 @@
 (*  D6  pairs, lists and strings are immutable values (Steel docs): cons / *)
 (*      append / string-append results may share structure with their      *)
 (*      arguments; sharing is unobservable in the model                    *)
+(* Steel behaviours the RENDERING avoids because they belong to other       *)
+(* properties (they were hit while building this check): calls with more   *)
+(* than 8 arguments inside a JIT-compiled function (constructors are       *)
+(* chunked, see SrcIntsC); parameterize re-evaluates its value expression  *)
+(* on re-entry of its extent; an immediately applied variadic lambda       *)
+(* inside a let body binds its rest parameter to the bare argument.        *)
 (* Only operations inside their domain are generated (C11 covers the       *)
 (* boundaries).  Struct functional update does not exist in a usable form  *)
 (* (#%struct-update fails on every `struct`-defined type), struct          *)
@@ -98,7 +110,7 @@
 (***************************************************************************)
 EXTENDS Integers, Sequences, TLC, Json, FiniteSets, SequencesExt
 
-CONSTANTS FAMS,       \* subset of {"alias", "loop"}
+CONSTANTS FAMS,       \* subset of {"alias", "loop", "sweep"}
           TYPES,      \* subset of {"hash", "hset", "ivec", "list", "str"}
           DEPTH,      \* actions after the first base
           KINDS0,     \* holder kinds of the first base
@@ -110,7 +122,8 @@ CONSTANTS FAMS,       \* subset of {"alias", "loop"}
           ACTS,       \* subset of {"base", "share", "upd", "upd2", "reobs"}
           MAXBASE, MAXLEN,
           BASESET,    \* "small" | "big"
-          LOOPN, LOOPEVERY, LOOPSTYLES
+          LOOPN, LOOPEVERY, LOOPSTYLES,
+          SWEEPSHAPES
 
 VARIABLES fam, ty, al, hist, k, code, lp
 vars == <<fam, ty, al, hist, k, code, lp>>
@@ -551,13 +564,29 @@ LoopIter ==
                       !.saved = IF lp.i % lp.every = 0 THEN Append(@, [i |-> lp.i, v |-> lp.acc]) ELSE @]
   /\ UNCHANGED <<fam, ty, al, hist, k, code>>
 
-Init == InitAlias \/ InitLoop
+(* Third family ("sweep").  The property quantifies over ALL operations: whatever a builtin $p does with an  *)
+(* immutable value - return something, signal an error - every holder of the value observes afterwards what   *)
+(* it observed before.  The check instantiates $p with every builtin of the engine; the model needs no         *)
+(* knowledge of $p: the expected observation after the call is the observation of the unchanged value.          *)
+(* The operand $v is a local; shape "LG": it is used again after the call and a global holds the same object,  *)
+(* "MG" / "ME" / "MC": the call is its last use (it is moved into the callee) while a global / a list in a     *)
+(* global / a closure in a global still holds the object.                                                      *)
+SweepPats == << "($p $v)", "($p $v 0)", "($p $v 1)", "($p $v 1 9)", "($p $v 0 1)", "($p 0 $v)", "($p 9 $v)", "($p $v $v)",
+                "($p $v 'k)", "($p $v 1 'k)", "($p $v \"a\")", "($p $v #\\a)", "($p $v (list 7 8))", "($p (list 7 8) $v)",
+                "($p (lambda (a) a) $v)", "($p (lambda (a b) a) $v)", "($p (lambda (a b) a) 0 $v)", "($p $v (lambda (a) a))" >>
+InitSweep ==
+  /\ fam = "sweep" /\ "sweep" \in FAMS
+  /\ ty \in TYPES
+  /\ \E b \in 1..Len(Bases[ty]) : \E sh \in SWEEPSHAPES : lp = [n |-> 0, b |-> b, shape |-> sh]
+  /\ al = << >> /\ hist = << >> /\ k = 0 /\ code = 0
+
+Init == InitAlias \/ InitLoop \/ InitSweep
 Next == Act \/ LoopIter
 Spec == Init /\ [][Next]_vars
 
 -----------------------------------------------------------------------------
 (* Properties of the model itself *)
-TypeOK == /\ fam \in {"alias", "loop"} /\ k \in 0..DEPTH
+TypeOK == /\ fam \in {"alias", "loop", "sweep"} /\ k \in 0..DEPTH
           /\ \A j \in 1..Len(al) : al[j].kind \in AllKinds /\ al[j].born <= k /\ al[j].dead <= k
 \* a hash value is a function
 FunctionOK == \A j \in 1..Len(al) : al[j].v.ty = "hash" => \A p, q \in al[j].v.e : p[1] = q[1] => p = q
@@ -604,6 +633,10 @@ LoopCase ==
                                                  exp |-> ObsE(LStep(lp.saved[x].v, lp.prog, 1000 + x))]]),
    forkfinal |-> Obs(LStep(lp.acc, lp.prog, 2000))]
 
-Terminal == IF fam = "loop" THEN lp.i = lp.n ELSE k = DEPTH
-Emit == Terminal => PrintT(<<"REPLAY", ToJson(IF fam = "alias" THEN AliasCase ELSE LoopCase)>>)
+SweepCase ==
+  [fam |-> "sweep", ty |-> ty, src |-> Bases[ty][lp.b].src, how |-> Bases[ty][lp.b].how, shape |-> lp.shape,
+   pats |-> SweepPats, q |-> ObsQ(Bases[ty][lp.b].v), exp |-> ObsE(Bases[ty][lp.b].v)]
+
+Terminal == IF fam = "loop" THEN lp.i = lp.n ELSE IF fam = "sweep" THEN TRUE ELSE k = DEPTH
+Emit == Terminal => PrintT(<<"REPLAY", ToJson(IF fam = "alias" THEN AliasCase ELSE IF fam = "loop" THEN LoopCase ELSE SweepCase)>>)
 =============================================================================
